@@ -138,9 +138,18 @@ def make_history_function(name, d, rng):
     raise KeyError(name)
 
 
+SPECIAL = {"values": []}
+
+
 def gen_point(rng, d, dom, pool):
     if pool and rng.random() < 0.35:
         return rng.choice(pool)
+    if SPECIAL["values"] and rng.random() < 0.25:
+        # coordinates exactly on the function's own break points (borders / mid points), others strictly below them
+        sp = SPECIAL["values"]
+        p = tuple(float(sp[k]) if rng.random() < 0.6 else float(sp[k]) - rng.uniform(0.01, 0.3) for k in range(d))
+        pool.append(p)
+        return p
     if dom in ("unit", "unit_exact"):
         p = tuple(rng.choice([0.0, 1.0, 0.5, rng.random(), rng.random()]) for _ in range(d))
     elif dom in ("positive", "positive_away"):
@@ -170,6 +179,11 @@ def run_history(case, res):
     fac, dom, ol = make_history_function(name, d, rng)
     f = fac()
     twin = fac()
+    SPECIAL["values"] = []
+    for attr in ("border", "midPoint", "midpoint", "midpoints"):
+        v = getattr(f, attr, None)
+        if v is not None and len(np.atleast_1d(v)) == d:
+            SPECIAL["values"] = [float(x) for x in np.atleast_1d(v)]
 
     def truth(p):
         v = twin.eval(tuple(p))
